@@ -461,14 +461,14 @@ def c16(pid, tier, seed, workdir):
                 lines = f.readlines()
             samples = [json.loads(lines[k]) for k in (0, 700, len(lines) // 2, len(lines) - 3) if k < len(lines)]
         log("[probe] notation profile=%s L=%d records=%d %.1fs" % (profile, Lp, r["lines"], r["seconds"]))
-    K = 36
+    K = 39
     nstr = sum(K ** i for i in range(1, L + 1))
     cov = {
         "states": mc["distinct"] + total, "transitions": mc["generated"] + total,
         "traces_validated_against_impl": 2,
         "evaluations": total,
         "distinct_nontrivial": nstr + 263 + 64 + 6 + 4,
-        "rule": "every string of length 1..%d over the 36-symbol abstract alphabet of Notation.tla (incl. 9 non-ASCII characters, four of them aliasing an accepted ASCII character in their low byte, and the upper-case forms of the accepted letters) is given to the four "
+        "rule": "every string of length 1..%d over the 39-symbol abstract alphabet of Notation.tla (incl. 9 non-ASCII characters, four of them aliasing an accepted ASCII character in their low byte, the upper-case forms of the accepted letters, and LF / CR / TAB) is given to the four "
                 "parsers under catch_unwind in two build profiles (overflow checks on/off) and the outcome compared with the declarative parser of the spec; "
                 "plus %d sampled strings of length %d..%d, all 263 actions / 64 squares / 6 pieces / 4 directions printed and parsed back, and all "
                 "conversions of all 64 squares; distinct = distinct strings + values (measured: enumeration completeness is checked by the spec)" % (L, nrand, L + 1, L + 4),
@@ -477,7 +477,7 @@ def c16(pid, tier, seed, workdir):
         "exhaustive": True,
         "exhaustive_scope": "all strings up to length %d over the stated alphabet, all values; longer strings sampled" % L,
     }
-    return cov, TRUSTED[:3] + ["strings outside the 36-symbol alphabet behave like some string over it (alphabet chosen by reading the parsers)"], findings
+    return cov, TRUSTED[:3] + ["strings outside the 39-symbol alphabet behave like some string over it (alphabet chosen by reading the parsers)"], findings
 
 
 def c17_key(rec):
